@@ -5,7 +5,7 @@ PROPERTY = 'C03'
 LEVEL = 'proof'
 
 def run(ctx):
-    ok = ctx.lean(['AmcVerif.Props.C03', 'AmcVerif.Props.C03b', 'AmcVerif.Props.C03c', 'AmcVerif.Props.C03d'], extra_modules=['AmcVerif.Bridge.FlatSetBridge', 'AmcVerif.Bridge.FlatSetHetBridge'])
+    ok = ctx.lean(['AmcVerif.Props.C03', 'AmcVerif.Props.C03b', 'AmcVerif.Props.C03c', 'AmcVerif.Props.C03d', 'AmcVerif.Props.C03e'], extra_modules=['AmcVerif.Bridge.FlatSetBridge', 'AmcVerif.Bridge.FlatSetHetBridge'])
     n = 60 if ctx.tier == 'quick' else 400
     if not ok:
         n *= 3
@@ -25,7 +25,8 @@ def run(ctx):
     tight = [S.SetCfg('flat', cmp='less', uvec='fixed', ucap=12, pool=3)]
     if ctx.tier == 'thorough':
         tight.append(S.SetCfg('flat', cmp='mod', uvec='fixed', ucap=5, pool=3))
-    single = lambda op: op not in ('insr', 'insl', 'rngc', 'fromv', 'asgv', 'steal')
+    # (`mrgx` builds its source set, of another comparator type, over the same tight vector type: that set may not fit by itself)
+    single = lambda op: op not in ('insr', 'insl', 'rngc', 'fromv', 'asgv', 'steal', 'mrgx')
     def gen_tight(rng, cfg, k):
         # every set of the pool starts well filled, so that |a| + |b| exceeds the capacity while the union still fits
         dom = 12 if cfg.cmp == 'less' else 40
@@ -36,7 +37,6 @@ def run(ctx):
         return pre + S.gen_history(rng, cfg, 40, dom=dom, ops_filter=single)
     SC.run(ctx, tight, gen_tight, n // 2,
            nontrivial=lambda cfg, lines, obs: any(l.startswith('mrg') for l in lines), label='C03 tight fixed capacity')
-    ctx.assume('heterogeneous (transparent) lookups and merge between different comparator types are not exercised by the harness yet')
     ctx.assume('bulk paths are modelled at specification level (stable sort + stable merge + keep-first unique = one-by-one insertion)')
 
 def replay(ctx, path):
